@@ -67,6 +67,30 @@ fn main() {
             println!("RESULT json-number {v:e} -> {j} -> {back:?} same={same}");
             if !same { std::process::exit(3); }
         }
+        // ---- C04/C01 enumerator: every escape of the Zinc grammar's string escape table, decoded by the real reader
+        "enum:zinc-escape" => {
+            let table: [(&str, char); 8] = [("b", '\u{8}'), ("f", '\u{c}'), ("n", '\n'), ("r", '\r'), ("t", '\t'), ("\"", '"'), ("\\", '\\'), ("$", '$')];
+            for (letter, want) in table {
+                let text = format!("\"\\{letter}\"");
+                let got = from_str(&text);
+                let ok = matches!(&got, Ok(Value::Str(s)) if s.value.chars().eq([want]));
+                if !ok {
+                    println!("RESULT enum:zinc-escape input={text:?} decoded={got:?} expected={:?}", want.to_string());
+                    std::process::exit(3);
+                }
+            }
+            for cu in [0x0041u32, 0x00e9, 0x2665, 0x0008, 0xffff] {
+                let text = format!("\"\\u{cu:04x}\"");
+                let got = from_str(&text);
+                let want = char::from_u32(cu).unwrap();
+                let ok = matches!(&got, Ok(Value::Str(s)) if s.value.chars().eq([want]));
+                if !ok {
+                    println!("RESULT enum:zinc-escape input={text:?} decoded={got:?} expected={:?}", want.to_string());
+                    std::process::exit(3);
+                }
+            }
+            println!("RESULT enum:zinc-escape all grammar escapes decode as the grammar says");
+        }
         // ---- C06: RFC 3339 text -> DateTime keeps the instant (or is rejected); exit 3 = different instant
         "rfc3339" => {
             let text = &args[2];
